@@ -103,6 +103,12 @@ def local_defs(f):
         ln = f.nodes[s.lhs]
         if ln["k"] == "DeclRefExpr" and ln["ref"]["dk"] in ("local", "parm"):
             defs.setdefault(ln["ref"]["id"], []).append(("store", s.node, s.rhs))
+    # iterators stepped by an overloaded ++ / -- change as well
+    for n in f.nodes:
+        if n["k"] == "CXXOperatorCallExpr" and n.get("oop") in ("++", "--") and len(n["c"]) >= 2:
+            t = f.nodes[f.strip(n["c"][1])]
+            if t["k"] == "DeclRefExpr" and t["ref"]["dk"] in ("local", "parm"):
+                defs.setdefault(t["ref"]["id"], []).append(("store", n["i"], None))
     # address-taken locals are treated as multiply defined
     for n in f.nodes:
         if n["k"] == "UnaryOperator" and n["op"] == "&":
